@@ -83,14 +83,14 @@ func checkCmd(args []string) int {
 		c.Rule = "one evaluation = one generated abstract XML document, serialised with tape-drawn variation and pushed through ReadXml under: the reference delivery, 1-3 drawn delivery schedules, EVERY truncation offset, a read error at EVERY offset, and 8-23 sampled content corruptions (executions_of_code_under_test counts the ReadXml calls); distinct = distinct document bytes; non-trivial = document has >= 3 nodes and at least one truncation landed inside the document element"
 		c.Assumptions = []string{"generator bounds of DESIGN.md §5 (no DTD subset, no literal TAB/LF/CR in attribute values, no BOM)", "the predicate 'decoder detects an error' is computed by a bare encoding/xml token loop with the same CharsetReader", "faulted inputs that the decoder does not reject are only monitored for crashes"}
 		c.Components = map[string][]string{"real": realLib, "simulated": {"io.Reader behind ReadXml (delivery schedule, truncation, read errors, corruption)"}}
-		c.RequiredProbes = []string{"truncation-inside-multibyte-sequence", "corruption-detected-by-decoder", "corruption-still-decodable", "read-error", "truncation-after-document-element", "delivery:one-byte", "delivery:cut-inside-tokens", "zero-length-reads", "declared-encoding-with-non-ascii-bytes:windows-1252", "declared-encoding-with-non-ascii-bytes:ISO-8859-1", "declared-encoding-with-non-ascii-bytes:KOI8-R", "declared-encoding-with-non-ascii-bytes:ISO-8859-2", "custom-entity-option", "interleaved-parsers"}
+		c.RequiredProbes = []string{"truncation-inside-multibyte-sequence", "corruption-detected-by-decoder", "corruption-still-decodable", "read-error", "truncation-after-document-element", "delivery:one-byte", "delivery:cut-inside-tokens", "zero-length-reads", "declared-encoding-with-non-ascii-bytes:windows-1252", "declared-encoding-with-non-ascii-bytes:ISO-8859-1", "declared-encoding-with-non-ascii-bytes:KOI8-R", "declared-encoding-with-non-ascii-bytes:ISO-8859-2", "custom-entity-option", "interleaved-parsers", "corrupt:undefined-entity-reference", "custom-entity-option-adds-in-place", "first-observation-bottom-up"}
 		c.Phases = []simkit.Phase{{Label: "stream-xml", Bin: bin, Engine: "stream-xml", Runs: pick(8000, 400000), MaxSeconds: secs(60, 1500), DetSample: int(pick(24, 256)), Samples: 3}}
 	case "C16":
 		c.Level = "fault_enumeration"
 		c.Rule = "one evaluation = one generated sequence of JSON values, serialised with tape-drawn variation and pushed through ReadJson under: the reference delivery, 1-3 drawn delivery schedules, EVERY truncation offset, a read error at EVERY offset, and 8-23 sampled code-point corruptions (executions_of_code_under_test counts the ReadJson calls); distinct = distinct text; non-trivial = text has >= 5 bytes and at least one truncation produced malformed JSON"
 		c.Assumptions = []string{"malformedness of faulted texts is decided by an independent strict RFC 8259 reader (model.JSONRef) that must agree with the generator on every clean input", "texts with lone surrogate escapes, numbers outside the double range, adjacent top-level values without white space, or no value at all are not judged", "top-level values are separated by white space"}
 		c.Components = map[string][]string{"real": realLib, "simulated": {"io.Reader behind ReadJson (delivery schedule, truncation, read errors, corruption)"}}
-		c.RequiredProbes = []string{"truncation-inside-multibyte-sequence", "corruption-malformed", "corruption-still-valid", "read-error", "truncation-still-valid", "truncation-malformed", "delivery:one-byte", "zero-length-reads"}
+		c.RequiredProbes = []string{"truncation-inside-multibyte-sequence", "corruption-malformed", "corruption-still-valid", "read-error", "truncation-still-valid", "truncation-malformed", "delivery:one-byte", "zero-length-reads", "number-outside-double-range"}
 		c.Phases = []simkit.Phase{{Label: "stream-json", Bin: bin, Engine: "stream-json", Runs: pick(10000, 600000), MaxSeconds: secs(60, 1500), DetSample: int(pick(24, 256)), Samples: 3}}
 	case "C17":
 		c.Level = "exploration"
@@ -104,7 +104,7 @@ func checkCmd(args []string) int {
 		c.Rule = "one evaluation = one simulated call history over 1-3 shared documents (XML/JSON/HTML through the real readers): 3-24 operations drawn from BuildExpr, Exec with With-options or caller-owned maps, ExecAsNodeset whose result slice the caller keeps, deriving sub-slices (with spare capacity) and passing them back as variables, verbatim repeats, Unmarshal, GetCursorString, rebuilds; user callbacks fail, panic, hand out caller-held slices or re-enter Exec; every query is compared with the same query in a fresh isolated world; distinct = distinct operation list; non-trivial = >= 3 queries or >= 3 held slices"
 		c.Assumptions = []string{"no XPath reference evaluator: results are compared with the implementation itself in a fresh isolated world (same document bytes, expression string, bindings, context-node path)", "only public observations are used (Cursor API, exported Grammar methods, the caller's own maps and slices)", "the rebuild-determinism oracle (I4) replays probabilistically"}
 		c.Components = map[string][]string{"real": realLib, "simulated": {"the caller (order, repetition and aliasing of public API calls)", "user callbacks (errors, panics, re-entrancy, handing out held slices)"}}
-		c.RequiredProbes = []string{"held-slice-with-spare-capacity", "held-slice-in-reverse-order", "variable-is-held-slice-with-spare-capacity", "callback-reentered-Exec", "callback-reentered-same-compiled-expression", "compiled-expression-reused", "bindings-via-caller-owned-maps", "callback-error", "callback-panic", "repeated-operation", "rebuild-determinism-check", "callback-returned-caller-held-slice"}
+		c.RequiredProbes = []string{"held-slice-with-spare-capacity", "held-slice-in-reverse-order", "variable-is-held-slice-with-spare-capacity", "callback-reentered-Exec", "callback-reentered-same-compiled-expression", "compiled-expression-reused", "bindings-via-caller-owned-maps", "callback-error", "callback-panic", "repeated-operation", "rebuild-determinism-check", "callback-returned-caller-held-slice", "battery-item-compared-with-fresh-process", "burst-of-failing-queries", "repeated-operation-after-burst"}
 		c.Phases = []simkit.Phase{{Label: "history", Bin: bin, Engine: "history", Runs: pick(10000, 400000), MaxSeconds: secs(70, 1500), DetSample: int(pick(16, 128)), Samples: 3, HistTail: int(pick(6, 24))}}
 	case "C14":
 		c.Level = "exploration"
@@ -112,7 +112,7 @@ func checkCmd(args []string) int {
 		c.Rule = "one evaluation = one simulated run: (library) 2-4 tasks x 1-5 operations (Exec with options or shared caller-owned maps, Unmarshal, GetCursorString, BuildExpr) on one shared cursor tree, one pool of compiled expressions and one set of bindings incl. shared node-set variables with spare capacity / reverse order, under a tape-drawn schedule of scheduler L (geometric gaps, PCT, site-targeted switches), once in the plain build and - same seeds - in the -race build; (CLI) one `-c N` process under a tape-drawn schedule of scheduler P; distinct = distinct hash of (scenario, context-switch sequence); non-trivial = at least two tasks actually interleaved (one ran a step strictly between another's first and last step)"
 		c.Assumptions = []string{"yield granularity is the Go statement (the -race build covers finer grain for conflicts, not for result corruption)", "the generated lexer / GLL parser and the map-ranging build-time functions of the BSR set are not yield-instrumented: BuildExpr is one atomic step per call in the plain build (the -race build still sees every memory access in them)", "GOMAXPROCS=1 inside simulation processes", "expected results come from isolated worlds computed before the tasks start"}
 		c.Components = map[string][]string{"real": append([]string{"Go race detector (race build)"}, realLib...), "simulated": {"goroutine choice between any two statements of exec/, store/, parser/, grammar/grammar.go, grammar/parser/bsr, xsel.go (scheduler L, turn token without happens-before edges)", "user callbacks"}}
-		c.RequiredProbes = []string{"tasks-interleaved", "shared-variable-with-spare-capacity", "shared-variable-in-reverse-order", "forced-switch-at-targeted-site", "race-build-run", "two-or-more-workers-live", "blocked:chan send", "files-with-multi-record-blocks"}
+		c.RequiredProbes = []string{"tasks-interleaved", "shared-variable-with-spare-capacity", "shared-variable-in-reverse-order", "forced-switch-at-targeted-site", "race-build-run", "two-or-more-workers-live", "blocked:chan send", "files-with-multi-record-blocks", "every-task-parses-first", "crowd-of-tasks"}
 		c.Phases = []simkit.Phase{
 			{Label: "sched-lib", BinKind: "sched", Bin: env("VERIF_SCHED_BIN", ""), Engine: "sched-lib", Runs: pick(12000, 500000), MaxSeconds: secs(30, 900), DetSample: int(pick(16, 128)), Samples: 2},
 			{Label: "sched-cli", Bin: bin, Engine: "sched-cli", Runs: pick(900, 300000), MaxSeconds: secs(30, 1200), DetSample: int(pick(4, 32)), Samples: 2},
@@ -123,7 +123,7 @@ func checkCmd(args []string) int {
 		c.Rule = "one evaluation = one run of the real CLI (instrumented test binary, main() as task 0 under scheduler P with the run-to-completion schedule, -c 1) over a generated directory tree (xml/xhtml/svg/html/htm/json/other extensions, nested directories, file faults: truncated, corrupted, empty, dangling symlink, symlink to a directory, unknown extension, missing file), flags (-a -m -n -r -t -u -s -v -e), an expression from the pool or the workload generator, optional stdin; stdout is matched record by record against what the harness computes with the same library; distinct = distinct (argv, tree, stdin); non-trivial = at least one file processed and at least one record or required diagnostic"
 		c.Assumptions = []string{"both sides use the same library: XPath-semantics defects cannot raise an alarm here", "diagnostic wording and exit status are not judged", "-m records are judged by re-parsing (expanded names, attributes, text, comments, PIs), never byte-wise; attribute/namespace/root results under -m only have to be single-line", "-m round trips are judged for nodes of XML and generated (clean) HTML documents and JSON documents alike; findings are keyed by the shape of the difference"}
 		c.Components = map[string][]string{"real": append([]string{"xsel/xsel.go (yield-instrumented copy, otherwise unmodified), flag, mime, filepath.WalkDir, os"}, realLib...), "simulated": {"argv, stdin, directory tree and file faults (scratch directory on the real file system)", "goroutine choice (scheduler P, trivial schedule)"}}
-		c.RequiredProbes = []string{"string-record", "multi-line-string-record", "m-record:element", "m-record:text", "file-fault:unreadable", "file-fault:unparsable or untyped", "global-diagnostic-case", "files-processed"}
+		c.RequiredProbes = []string{"string-record", "multi-line-string-record", "m-record:element", "m-record:text", "file-fault:unreadable", "file-fault:unparsable or untyped", "global-diagnostic-case", "files-processed", "expression-shows-variable-value", "blocks-in-argument-or-walk-order"}
 		c.Phases = []simkit.Phase{{Label: "cli", Bin: bin, Engine: "cli", Runs: pick(4000, 300000), MaxSeconds: secs(60, 1500), DetSample: int(pick(8, 64)), Samples: 3}}
 	case "C15":
 		c.Level = "exploration"
@@ -137,7 +137,7 @@ func checkCmd(args []string) int {
 		c.Rule = "one evaluation = one scripted event history (contract-conforming: element start, then namespaces, then attributes, then children, end; surplus end events only where depth is 0) pulled by store.CreateInMemory through the Parser seam and compared with a stack-machine reference model, plus the stack-ceiling child processes (one evaluation each); distinct = distinct event history; non-trivial = history has >= 4 events"
 		c.Assumptions = []string{"a failing Pull is not used as a fault: the statement is about conforming streams", "the root's own Parent() is not constrained", "order among the namespace nodes of one element is not constrained beyond increasing Pos"}
 		c.Components = map[string][]string{"real": {"store.CreateInMemory and the InMemory cursor (unmodified)", "Go runtime (stack growth, debug.SetMaxStack)"}, "simulated": {"the Parser (scripted event histories, generated on the fly for the 10^5..3*10^6-event runs)", "goroutine stack ceiling (resource fault)"}}
-		c.RequiredProbes = []string{"surplus-end-event-at-depth-0", "inherited-namespace", "overridden-namespace", "deep-history"}
+		c.RequiredProbes = []string{"surplus-end-event-at-depth-0", "inherited-namespace", "overridden-namespace", "deep-history", "build-nested-inside-pull", "first-observation-bottom-up", "second-build-then-recheck"}
 		c.Phases = []simkit.Phase{{Label: "events", Bin: bin, Engine: "events", Runs: pick(60000, 1000000), MaxSeconds: secs(40, 1200), DetSample: int(pick(24, 256)), Samples: 3}}
 		sizes := []int{100000, 1000000}
 		if thorough {
